@@ -293,16 +293,21 @@ class HeaderStream(cstream.Stream):
             # from a block store the code under test created and filled
             from skv import nodekit
             rebuilt = nodekit.rebuild_through_store(world, rng, "c05")
-            if rebuilt is not None and rebuilt.current_chain_hash == world.cs.current_chain_hash \
-                    and set(rebuilt.block_by_hash.keys()) == set(world.cs.block_by_hash.keys()):
+            if rebuilt is not None and rebuilt.current_chain_hash in world.chain.blocks:
+                # (whatever the store gave back is what the restarted node works with: candidates are built on blocks it holds)
+                if set(rebuilt.block_by_hash.keys()) != set(world.cs.block_by_hash.keys()):
+                    self.c["rebuilt_states_lacking_blocks"] = self.c.get("rebuilt_states_lacking_blocks", 0) + 1
                 world.cs = rebuilt
                 self.c["worlds_on_a_state_rebuilt_from_the_store"] = self.c.get("worlds_on_a_state_rebuilt_from_the_store", 0) + 1
             else:
+                restarted = False
                 self.c["worlds_not_rebuilt"] = self.c.get("worlds_not_rebuilt", 0) + 1
         names = sorted(classes)
         for k in range(ncand):
             cls = names[(k + rng.randrange(3)) % len(names)]
             pid = self.pick_parent(world, rng)
+            if restarted and pid not in world.cs.block_by_hash:
+                pid = world.cs.current_chain_hash
             if cls in PERIOD_ONLY and rng.random() < 0.8:
                 atb = [b for b in world.chain.order if (world.chain.blocks[b].height + 1) % world.params.period == 0]
                 if atb:
